@@ -124,7 +124,13 @@ def run(ctx: core.Ctx) -> None:
     ctx.assumptions += ["TLC 1.8 + Json module trusted", "distinct reactions are identified by RDKit canonical SMILES of both sides without atom maps and stereo",
                         "'applying the rule at every match' is realised by pre-seeding SynReactor's lazy match cache with the raw output of the subgraph search"]
     q, rng = ctx.quick, ctx.rng
-    core.run_stage(ctx, S("written-in-several-ways", make_inputs(rng, "C05", 3 if q else 8, 60 if q else 300, 300 if q else 6000)))
+    inputs = make_inputs(rng, "C05", 3 if q else 8, 60 if q else 300, 300 if q else 6000)
+    core.run_stage(ctx, S("written-in-several-ways", inputs))
+    # the same with the optional exact pruning (SynReactor(automorphism=True)): textbook templates and a sample of the others
+    text = [i for i in inputs if i["nvar"] != 2]
+    rest = [i for i in inputs if i["nvar"] == 2]
+    exact = [dict(i, exact=True, nvar=2 if q else 4) for i in text] + [dict(i, exact=True) for i in rng.sample(rest, min(len(rest), 60 if q else 1500))]
+    core.run_stage(ctx, S("written-in-several-ways-exact-pruning", exact))
 
 
 def replay(ctx, data):
